@@ -118,6 +118,7 @@ type Sim struct {
 	current *Task
 	last    *Task
 	wake    chan struct{}
+	rootG   int64 // the scheduler goroutine: never parks, runs instrumented code natively
 	waiters map[any][]*Task
 	events  []*Event
 	evSeq   int
@@ -243,6 +244,7 @@ func New(tape *Tape, cfg Config) *Sim {
 		SitesHit: map[int]int{}, Switches: map[[2]int]int{},
 		memState: map[uintptr]*memLoc{},
 	}
+	s.rootG = goid()
 	h := fnv.New64a()
 	s.fp = h.Sum64()
 	if cfg.Policy == 2 {
@@ -310,6 +312,9 @@ func (s *Sim) siteOn(site int) bool {
 
 // park blocks the caller until the scheduler releases it.
 func (s *Sim) park(t *Task, site int) {
+	if t.goid == s.rootG {
+		return // set-up code run on the scheduler goroutine itself
+	}
 	s.mu.Lock()
 	if s.dying {
 		s.mu.Unlock()
@@ -331,6 +336,9 @@ func (s *Sim) park(t *Task, site int) {
 // task released by the scheduler passes straight through disabled sites; any
 // other goroutine (woken natively, library callback) always parks.
 func (s *Sim) pre(t *Task, site int) {
+	if t.goid == s.rootG {
+		return
+	}
 	s.mu.Lock()
 	pass := s.current == t && !s.siteOn(site) && !s.dying
 	s.mu.Unlock()
